@@ -202,6 +202,85 @@ class FakeSocket:
         return c is not None and c.state in ("established", "refused")
 
 
+class SctpStatus:
+    """What pysctp's sctpsocket.get_status() returns, reduced to what the library reads."""
+    state_EMPTY, state_CLOSED, state_COOKIE_WAIT, state_COOKIE_ECHOED, state_ESTABLISHED = 0, 1, 2, 3, 4
+    state_SHUTDOWN_PENDING, state_SHUTDOWN_SENT, state_SHUTDOWN_RECEIVED, state_SHUTDOWN_ACK_SENT = 5, 6, 7, 8
+
+    def __init__(self, state):
+        self.state = state
+
+
+class FakeSctpSocket(FakeSocket):
+    """One-to-one style SCTP socket of pysctp (`sctp.sctpsocket_tcp`) over the same fake network: connect() is
+    issued in blocking mode by the library (it returns once the peer has accepted, raises when refused);
+    sctp_send/sctp_recv move bytes like send/recv (message boundaries are not modelled: the library treats the
+    association as a byte stream)."""
+
+    def accept(self):
+        shims.current().point("sock.accept", "")
+        if not self.backlog:
+            raise BlockingIOError(errno.EAGAIN, "Resource temporarily unavailable")
+        conn = self.backlog.popleft()
+        s = FakeSctpSocket()
+        s.conn = conn
+        conn.state = "established"
+        return s, ("127.0.0.9", 40000)
+
+    def connect(self, addr):
+        rt = shims.current()
+        rt.point("sock.connect", str(addr[1]))
+        self.conn = c = Conn(self.net)
+        c.remote = addr
+        self.net.connections.append(c)
+        self.net.pending_clients.append(c)
+        if self.blocking:
+            if c.state == "pending":
+                rt.block("sock.connect", str(addr[1]), pred=lambda: c.state != "pending", timeout=SCTP_CONNECT_TIMEOUT)
+            if c.state == "pending":
+                c.state = "refused"
+                c.refused_reported = True
+                raise TimeoutError(errno.ETIMEDOUT, "Connection timed out")
+            if c.state == "refused":
+                c.refused_reported = True
+                raise ConnectionRefusedError(errno.ECONNREFUSED, "Connection refused")
+            return None
+        raise BlockingIOError(errno.EINPROGRESS, "Operation now in progress")
+
+    def sctp_send(self, msg, to=("", 0), ppid=0, flags=0, stream=0, timetolive=0, context=0, record_file_prefix="RECORD_sctp_traffic", datalogging=False):
+        return self.send(msg)
+
+    def sctp_recv(self, maxlen):
+        data = self.recv(maxlen)
+        return (("127.0.0.2", 0), 0x80, data, None)
+
+    def get_status(self):
+        c = self.conn
+        if self.closed or c is None or c.state in ("closed", "refused"):
+            return SctpStatus(SctpStatus.state_CLOSED)
+        if c.state == "pending":
+            return SctpStatus(SctpStatus.state_COOKIE_WAIT)
+        if c.eof:
+            return SctpStatus(SctpStatus.state_SHUTDOWN_RECEIVED)
+        return SctpStatus(SctpStatus.state_ESTABLISHED)
+
+
+SCTP_CONNECT_TIMEOUT = 10.0     # virtual seconds a blocking SCTP connect() waits for a silent peer (kernel: INIT retransmissions)
+
+
+def make_sctp_modules():
+    """Stand-ins for pysctp's `sctp` and `_sctp` modules (not installed in this sandbox)."""
+    m = types.ModuleType("sctp")
+    m.sctpsocket_tcp = FakeSctpSocket
+    m.sctpsocket = FakeSctpSocket
+    m.status = SctpStatus
+    m.__verif_fake__ = True
+    u = types.ModuleType("_sctp")
+    u.getconstant = lambda name: {"IPPROTO_SCTP": 132}.get(name, 0)
+    u.__verif_fake__ = True
+    return m, u
+
+
 Conn.reset_on_write = False
 Conn.reset = False
 Conn.reset_reported = False
